@@ -44,8 +44,32 @@ def unit(ra, dec):
     return np.stack([cd * np.cos(r), cd * np.sin(r), np.sin(d)], axis=-1)
 
 
+BLOCK_ELEMS = 200000      # rows are processed in blocks so that temporaries stay below ~10 MB each
+
+
+def _blockwise(f, ra1, dec1, ra2, dec2):
+    n1, n2 = np.size(ra1), np.size(ra2)
+    if n1 * n2 <= BLOCK_ELEMS or n1 <= 1:
+        return f(ra1, dec1, ra2, dec2)
+    ra1 = np.asarray(ra1)
+    dec1 = np.asarray(dec1)
+    rows = max(1, BLOCK_ELEMS // max(n2, 1))
+    out = np.empty((n1, n2), dtype=LD)
+    for lo in range(0, n1, rows):
+        out[lo:lo + rows] = f(ra1[lo:lo + rows], dec1[lo:lo + rows], ra2, dec2)
+    return out
+
+
 def sep_matrix(ra1, dec1, ra2, dec2):
-    """(n1, n2) long-double matrix of great-circle separations in degrees (chord formula)."""
+    """(n1, n2) long-double matrix of great-circle separations in degrees (chord formula), evaluated block-wise."""
+    return _blockwise(_sep_block, ra1, dec1, ra2, dec2)
+
+
+def sep_matrix_vincenty(ra1, dec1, ra2, dec2):
+    return _blockwise(_vincenty_block, ra1, dec1, ra2, dec2)
+
+
+def _sep_block(ra1, dec1, ra2, dec2):
     a = unit(ra1, dec1)[:, None, :]
     b = unit(ra2, dec2)[None, :, :]
     dm = a - b
@@ -58,7 +82,7 @@ def sep_matrix(ra1, dec1, ra2, dec2):
     return np.where(cm <= cp, near, far) * R2D
 
 
-def sep_matrix_vincenty(ra1, dec1, ra2, dec2):
+def _vincenty_block(ra1, dec1, ra2, dec2):
     a = unit(ra1, dec1)[:, None, :]
     b = unit(ra2, dec2)[None, :, :]
     cr = np.cross(a, b)
